@@ -19,7 +19,7 @@ Proof. exact ScopeProps.C07_sound_vars. Qed.
     recorded in the Context and never consulted [D11]. *)
 Theorem C07_sound_refuted :
   exists T p e g t o,
-    check_program T as_is p = Ok (e, g) /\ ssruns T false [] p t o /\
+    check_program T restored p = Ok (e, g) /\ ssruns T false [] p t o /\
     ~ all_events (fldwrite_ok (t_fld T)) [[]] [] t.
 Proof. exact ScopeWitness.C07_sound_refuted. Qed.
 
@@ -72,7 +72,7 @@ Check C07_sound_vars :
     all_events write_ok [[]] [] t /\ all_events recv_ok [[]] [] t.
 Check C07_sound_refuted :
   exists T p e g t o,
-    check_program T as_is p = Ok (e, g) /\ ssruns T false [] p t o /\
+    check_program T restored p = Ok (e, g) /\ ssruns T false [] p t o /\
     ~ all_events (fldwrite_ok (t_fld T)) [[]] [] t.
 Check C07_sound_outside_known :
   forall T strict p e g t o,
